@@ -1,4 +1,4 @@
-From TLXV Require Import C12.CPtr.
+From TLXV Require Import C12.CPtr C12.Conc.
 Require Extraction. Require ExtrOcamlBasic.
 Extraction Language OCaml.
-Extraction "../ocaml/gen/C12_model.ml" CPtr.run_case.
+Extraction "../ocaml/gen/C12_model.ml" CPtr.run_case Conc.validate.
